@@ -253,7 +253,7 @@ def targets_file(lines):
     return p
 
 
-def run_multi(archs, threads, fmt='text', prefix=(), gate_kinds=('connect',), policy=None, extra=(), world_kw=None, rate=False):
+def run_multi(archs, threads, fmt='text', prefix=(), gate_kinds=('connect',), policy=None, extra=(), world_kw=None, rate=False, explore_main=False):
     """-> (result, scheduler).  Output for position i is labelled host<i>.example."""
     w = build_world(archs, world_kw=world_kw)
     tf = targets_file([host_label(i) for i in range(len(archs))])
@@ -261,7 +261,7 @@ def run_multi(archs, threads, fmt='text', prefix=(), gate_kinds=('connect',), po
     if policy:
         argv += ['-P', policy]
     argv += ['-T', tf, '--threads', str(threads)]
-    return sched.run_scheduled(runner.run_cli, argv, w, prefix, gate_kinds)
+    return sched.run_scheduled(runner.run_cli, argv, w, prefix, gate_kinds, explore_main=explore_main)
 
 
 _single_cache = {}
